@@ -561,12 +561,51 @@ fn c13(inputs: &str, journal: &str, out: &str, start: usize) {
     std::fs::write(journal, "done").unwrap();
 }
 
+/// C20: compile through the library entry points. route = lib (Input::new on a path) | mem (Input::from_glyphs on the text)
+fn c20(route: &str, source: &str, out: &str) -> i32 {
+    let input = match route {
+        "lib" => match fontc::Input::new(Path::new(source)) {
+            Ok(i) => i,
+            Err(e) => {
+                eprintln!("input error: {e}");
+                return 1;
+            }
+        },
+        "mem" => match std::fs::read_to_string(source) {
+            Ok(text) => fontc::Input::from_glyphs(text),
+            Err(e) => {
+                eprintln!("read error: {e}");
+                return 1;
+            }
+        },
+        _ => return 2,
+    };
+    let src = match input.create_source() {
+        Ok(s) => s,
+        Err(e) => {
+            eprintln!("source error: {e}");
+            return 1;
+        }
+    };
+    match fontc::generate_font(src, fontc::Options::default()) {
+        Ok(bytes) => {
+            std::fs::write(out, bytes).unwrap();
+            0
+        }
+        Err(e) => {
+            eprintln!("compile error: {e}");
+            1
+        }
+    }
+}
+
 fn main() {
     let args: Vec<String> = std::env::args().collect();
     let num = |i: usize, d: u64| args.get(i).and_then(|s| s.parse::<u64>().ok()).unwrap_or(d);
     match args.get(1).map(|s| s.as_str()).unwrap_or("") {
         "c07" => println!("{}", c07(num(2, 1), num(3, 1000) as usize)),
         "c16" => println!("{}", c16(num(2, 1), num(3, 1000) as usize)),
+        "c20" => std::process::exit(c20(&args[2], &args[3], &args[4])),
         "c13" => c13(&args[2], &args[3], &args[4], num(5, 0) as usize),
         _ => {
             eprintln!("usage: vapi c07|c16 <seed> <n> | c13 <inputs.jsonl> <journal> <out.jsonl> [start]");
